@@ -14,6 +14,7 @@ import WS.Model.Ping
 import WS.Model.DialReq
 import WS.Model.Mu
 import WS.Model.Timeout
+import WS.CIR.ConnTrace
 /-
   Command table of the driver.  Every command is a pure function String → String.
 -/
@@ -508,6 +509,17 @@ def cmdPoolMonitor (args : List String) : String :=
     | none => "bad-args"
   | _ => "bad-args"
 
+/-- `cirtrace <entry[,entry…]> <running|ok|err> <ev> <ev> …` : is the event sequence of one thread a path of the
+connection skeleton from one of the entries, ending as reported? -/
+def cmdCirTrace (args : List String) : String :=
+  match args with
+  | ents :: fin :: evs =>
+    match (ents.splitOn ",").mapM CIR.ConnTrace.entryOf, CIR.ConnTrace.parseFin fin,
+          (evs.filter (· != "")).mapM CIR.ConnTrace.parseEv with
+    | some es, some f, some l => CIR.ConnTrace.check es f l
+    | _, _, _ => "bad-args"
+  | _ => "bad-args"
+
 def handle (line : String) : String :=
   match line.splitOn " " with
   | [] => "bad-op"
@@ -540,6 +552,7 @@ def handle (line : String) : String :=
     | "dial-req" => cmdDialReq args
     | "json-rt" => cmdJsonRt args
     | "pool-monitor" => cmdPoolMonitor args
+    | "cirtrace" => cmdCirTrace args
     | "ping" => "pong"
     | _ => "bad-op"
 
